@@ -49,6 +49,6 @@ for b in blocks:
             break
         else:
             i += 1
-    out.append(head.rstrip() + " :=\n  C19L.%s %s\n" % (name, " ".join(binders)))
+    out.append(head.rstrip() + " :=\n  C19L.%s.%s %s\n" % (have[name], name, " ".join(binders)))
 open("/verif/lean/FeatModel/Props/C19.lean", "w").write("\n".join(out))
 print("proved:", sorted(have), "\nmissing:", missing)
